@@ -140,7 +140,7 @@ def body(ctx: C.Ctx, proof: C.ProofStatus) -> C.Result:
 
     res = C.Result()
     rng = ctx.rng
-    n = ctx.scale(1200, 40000)
+    n = ctx.scale(1200, 24000)
     zdir = ctx.tmp / "z"
     zdir.mkdir(parents=True)
     cases = []
